@@ -293,6 +293,13 @@ pub fn make(kind: &'static str, want: Option<&Ty>, env: &Env, s: &mut Sel) -> Op
             Some(plant(kind, format!("{} {} {}", a.lit(k), op, b.lit(k / 4)), P::Bool.twin(k).to_string(), Form::Expr(Some(Ty::Bool))))
         }
         "neg-non-number" => {
+            // statement level also: unary minus on a tuple (no rule gives it a type, whatever the elements are)
+            if want.is_none() && s.below(3) == 0 {
+                let a = *s.pick(&[P::Str, P::Bool, P::Int, P::Float]);
+                let tup = format!("({}, {})", a.lit(k), P::Int.lit(k / 4));
+                let ty = Ty::Tuple(vec![a.ty(), Ty::Int]);
+                return Some(plant(kind, format!("-{}", tup), tup, Form::Expr(Some(ty))));
+            }
             let a = prim_result(s, &[P::Str, P::Bool])?;
             Some(plant(kind, format!("-{}", a.lit(k)), a.twin(k).to_string(), Form::Expr(Some(a.ty()))))
         }
